@@ -82,6 +82,7 @@ type Contract struct {
 	NoConvContents bool // string([]byte): model only the length (keeps a quantified fact out of functions that do not need it)
 	NoReads      []NoReads
 	OnlyWriter   []NoReads
+	FieldTypes   []NoReads
 	StringsExact bool // model the contents of concatenated strings (quantified axioms)
 	Handler  bool // deferred recover handler: recover() yields an arbitrary value
 	RecoverBy string // callee key of the deferred recover handler: runtime panics after its Defer are converted to errors
@@ -535,6 +536,28 @@ func (sp *Specs) loadSpecFile(path, pkgPath string) error {
 				return fail(err)
 			}
 			cur.FieldsOf = append(cur.FieldsOf, c)
+		case "fieldtype":
+			// fieldtype[label;props] pkg.Type.Field <type> : the field has exactly this type (a
+			// design decision a proof rests on, e.g. "the state holds a COPY of the registry")
+			nr := NoReads{}
+			r := strings.TrimSpace(rest)
+			if m := reLabel.FindStringSubmatch(r); m != nil {
+				parts := strings.SplitN(m[1], ";", 2)
+				nr.Label = strings.TrimSpace(parts[0])
+				if len(parts) == 2 {
+					for _, pr := range strings.Split(parts[1], ",") {
+						if pr = strings.TrimSpace(pr); pr != "" {
+							nr.Props = append(nr.Props, pr)
+						}
+					}
+				}
+				r = r[len(m[0]):]
+			}
+			nr.Fields = strings.Fields(r)
+			if len(nr.Fields) != 2 {
+				return fail(fmt.Errorf("fieldtype: <pkg.Type.Field> <type> expected"))
+			}
+			cur.FieldTypes = append(cur.FieldTypes, nr)
 		case "onlywriter":
 			// onlywriter[label;props] pkg.Type.Field ... : this function is the only one in the
 			// repository that stores to the field (initialisation of a freshly allocated object
